@@ -81,7 +81,11 @@ def mk_field(base, name, of=""):
                 return fe
     # checked arithmetic: (a op b).0 is the wrapped result
     if base[0] == "bin" and base[1].endswith("WithOverflow") and name in ("0", 0):
-        return ("bin", base[1][: -len("WithOverflow")], base[2], base[3])
+        return mk_bin(base[1][: -len("WithOverflow")], base[2], base[3])
+    if base[0] == "bin" and base[1].endswith("WithOverflow") and name in ("1", 1):
+        r = mk_bin(base[1][: -len("WithOverflow")], base[2], base[3])
+        if r[0] == "const" and r[1] is not None:
+            return const(0)
     if base[0] == "variant" and base[1][0] == "agg":
         agg = base[1]
         if agg[3] == base[2]:
